@@ -43,6 +43,9 @@ CLAUSES = (
     + [f"C04.{loc}_{k}" for loc in LOCATED for k in ("missing", "extra", "value", "name")]
 )
 BASE = "http://srv.test"
+# every client of the family is driven through ONE bundled transport configured with a default header: the calls of a client form a
+# sequence (all subsets of the optional arguments, then falsy values), so state carried from one call to the next shows on the wire
+DEFAULT_HEADERS = {"X-Verif-Default": "dflt"}
 PACK = 12
 CHUNK = 4000  # operations per Trace_Wire run
 
@@ -199,7 +202,7 @@ def generate_and_observe(chk: Check, groups: list[list[dict]], label: str, compi
     root = chk.scratch.sub("gen_" + label)
     jobs = [{"id": f"{label}{j}", "root": str(root), "spec": document(g, own_tags=j in compile_only), "pkg": f"p{label}{j}", "core": None, "force": True, "nopp": True} for j, g in enumerate(groups)]
     gres = core.parallel_py(chk.scratch, "harness.w_gen", jobs)
-    ojobs = [{"id": j["id"], "root": j["root"], "pkg": j["pkg"], "core": None, "want": ["compile"] if n in compile_only else ["surface", "wire4"], "max_plans": 8, "max_falsy": 6} for n, (j, g) in enumerate(zip(jobs, gres)) if g["ok"]]
+    ojobs = [{"id": j["id"], "root": j["root"], "pkg": j["pkg"], "core": None, "want": ["compile"] if n in compile_only else ["surface", "wire4"], "max_plans": 8, "max_falsy": 6, "default_headers": DEFAULT_HEADERS} for n, (j, g) in enumerate(zip(jobs, gres)) if g["ok"]]
     ores = {r["id"]: r for r in core.parallel_py(chk.scratch, "harness.w_obs", ojobs, env={"VERIF_OBS_EXTRA": "harness.obs_wire,harness.obs_c04"})} if ojobs else {}
     for r in ores.values():
         if "wire4" in r:
@@ -399,7 +402,9 @@ def request_summary(call: dict) -> dict:
         out["method"] = rq["method"]
         out["path"] = [{"v": s, "c": vclass(s)} for s in unquote(rq["path"]).strip("/").split("/")]
         out["query"] = [{"k": k, "v": v, "c": vclass(v)} for k, v in rq["query"]]
-        out["headers"] = [{"k": k.lower(), "v": v, "c": vclass(v)} for k, v in rq["headers"]]
+        # the transport's configured default header is not part of the call (C17 judges defaults); anything ELSE that an earlier
+        # call of the same client left behind is judged like any other header
+        out["headers"] = [{"k": k.lower(), "v": v, "c": vclass(v)} for k, v in rq["headers"] if [k.lower(), v] not in [[dk.lower(), dv] for dk, dv in DEFAULT_HEADERS.items()]]
         out["cookies"] = [{"k": k, "v": v, "c": vclass(v)} for k, v in rq["cookies"]]
         out["ctype"], out["body"] = body_summary(rq)
     return out
@@ -753,6 +758,7 @@ def observe_ops(chk: Check, scen: list[dict]) -> tuple[list[tuple[dict, list[dic
             if left_o:
                 if len(ops) == 1:
                     stats["unidentified"] += 1
+                    stats.setdefault("unidentified_ops", []).append(ops[left_o[0]])
                 else:
                     pending += [ops[i] for i in left_o]
         if rnd == 1:
@@ -826,6 +832,11 @@ def run(chk: Check) -> None:
         for k, n in drift.most_common(4):
             chk.note_drift(f"as-is model vs observation: {n} call(s) {k[:260]}")
         chk.cov["model_drift_calls"] = tot
+    # an accepted operation, alone in an importable package, that no generated method sends: "for every operation ... awaiting the
+    # generated method issues exactly one HTTP request" has nothing to await
+    chk.clause("C04.no_method", stats.get("operations", 0))
+    for op in stats.get("unidentified_ops", []):
+        chk.fail("C04.no_method", {"method": op.get("method", ""), "body": (op.get("body") or {}).get("kind", "")}, {"op": op}, "no method of the emitted client sends a request to this operation's path")
     if stats.get("unidentified"):
         chk.note_drift(f"{stats['unidentified']} operation(s) could not be identified with a method")
     chk.require(len(items) > 0.5 * len(scen), f"only {len(items)} of {len(scen)} operations could be observed")
